@@ -157,8 +157,14 @@ func (c *Ctx) Unit(fn func(u *U)) {
 	}
 	c.res.Units++
 	if len(u.viol) > 0 {
-		// determinism re-check: the same unit must produce the same
-		// violations twice more before anything is believed.
+		// re-check: the unit is run twice more.  The harness is deterministic
+		// (fixed enumeration order, no clock, no randomness), so when the three
+		// runs disagree it is the library's behaviour that differs between runs
+		// (a result that depends on Go map iteration order, package-level
+		// scratch state, ...).  Every violation observed in any run is a real
+		// execution that violates the property: they are all reported, tagged
+		// with how many of the three runs showed them.
+		runs := [][]Violation{u.viol}
 		for k := 0; k < 2; k++ {
 			u2 := &U{c: c, Idx: idx, recheck: true}
 			if herr := runUnit(u2, fn); herr != "" {
@@ -166,11 +172,33 @@ func (c *Ctx) Unit(fn func(u *U)) {
 				c.stopped = true
 				return
 			}
-			if !sameViol(u.viol, u2.viol) {
-				c.res.HarnessErr = fmt.Sprintf("non-deterministic violation in unit %d: %v vs %v", idx, u.viol, u2.viol)
-				c.stopped = true
-				return
+			runs = append(runs, u2.viol)
+		}
+		if !sameViol(runs[0], runs[1]) || !sameViol(runs[0], runs[2]) {
+			count := map[string]int{}
+			first := map[string]Violation{}
+			var order []string
+			for _, r := range runs {
+				seenHere := map[string]bool{}
+				for _, v := range r {
+					k := v.Site + "\x00" + v.Shape
+					if _, ok := first[k]; !ok {
+						first[k] = v
+						order = append(order, k)
+					}
+					if !seenHere[k] {
+						seenHere[k] = true
+						count[k]++
+					}
+				}
 			}
+			u.viol = nil
+			for _, k := range order {
+				v := first[k]
+				v.Detail = fmt.Sprintf("[observed in %d of 3 runs of this unit: the behaviour is not reproducible, i.e. not a function of the operands] %s", count[k], v.Detail)
+				u.viol = append(u.viol, v)
+			}
+			c.res.Classes["unit-with-irreproducible-violations"]++
 		}
 		for _, v := range u.viol {
 			c.res.ViolCount++
